@@ -23,7 +23,7 @@ ASSUMPTIONS = [
     "records are circular and over ACGT plus the unknown base N (records with other ambiguity letters are counted as skipped)",
     "which of several valid cut pairs a class picks is not constrained",
 ]
-FLOORS = {"c04_entities_judged": 1500, "c04_placeholders_judged": 150, "c04_flanked_targets": 500, "classes_judged": 60}
+FLOORS = {"c04_nested_pairs": 40, "c04_entities_judged": 1500, "c04_placeholders_judged": 150, "c04_flanked_targets": 500, "classes_judged": 60}
 MUST_REACH = ["AbstractModule.target_sequence", "AbstractVector.target_sequence", "AbstractVector.placeholder_sequence"]
 NEEDS_REGISTRIES = True
 BUDGET_S = {"quick": 900, "thorough": 7200}
@@ -42,6 +42,8 @@ def cases(tier, seed):
         out.append({"kind": "kit", "cls": c, "seed": seed, "count": per})
     for e in gen.enzyme_names():
         out.append({"kind": "generic", "enzyme": e, "seed": seed, "count": per})
+    for j in range(0, 80 if tier == "quick" else 2400, 10):
+        out.append({"kind": "nested-pairs", "from": j, "count": 10, "seed": seed})
     its = regs.items()
     for j in range(0, len(its), 20):
         out.append({"kind": "registry", "from": j, "to": min(len(its), j + 20), "seed": seed})
@@ -125,6 +127,38 @@ def execute(mat, ctx):
         return
     if kind == "registry-asm":
         _embedded.run_registry_assembly(mat, ctx)
+        return
+    if kind == "nested-pairs":
+        # the hand-written vector structures embed the sites of another enzyme: the same stretch is matched by the vector
+        # class (its own cutter) and by the kit's module classes of the embedded enzyme.  Both are asked, in either order, about
+        # the same record carrying one extra site of either enzyme in the placeholder.
+        from . import C11
+        trip = C11.triples()
+        for j in range(mat["from"], mat["from"] + mat["count"]):
+            rng = gen.rng_for(mat["seed"], PROP, "nested", j)
+            name, Vc, Mc, Nc = trip[j % len(trip)]
+            if name == "ytk-entry":
+                continue
+            sv = C11.make_vector(rng, Vc, [Vc.cutter, Nc.cutter])
+            if sv is None:
+                continue
+            extra = rng.choice([Vc.cutter, Nc.cutter])
+            alt = C11.site_in_placeholder(rng, sv, Vc.cutter, extra) if extra is not Vc.cutter else None
+            if alt is None:
+                # an extra site of the vector's own cutter (or no placeholder room): insert it anywhere in the placeholder region
+                from ..util import occurrences
+                a = occurrences(sv, rc(Vc.cutter.site))
+                b = occurrences(sv, Vc.cutter.site)
+                if len(a) == 1 and len(b) == 1 and b[0] - (a[0] + len(Vc.cutter.site)) >= 2:
+                    i = rng.randint(a[0] + len(Vc.cutter.site) + 1, b[0] - 1)
+                    alt = sv[:i] + rng.choice([extra.site, rc(extra.site)]) + sv[i:]
+                else:
+                    alt = sv
+            text = rot_left(alt, rng.randrange(len(alt)) if rng.random() < 0.5 else 0)
+            order = [Vc, Nc] if rng.random() < 0.5 else [Nc, Vc]
+            for cls in order:
+                _probe(ctx, cls, text, "nested-pair")
+            ctx.count("c04_nested_pairs")
         return
     if kind == "registry":
         for rname, key, cls, rec in regs.items()[mat["from"]:mat["to"]]:
